@@ -296,6 +296,22 @@ def _run(ctx, quick, pool):
     ctx.notes["natural_runs"] = nat_stats
     ctx.notes["model_behaviours_accepted_by_monitor"] = len(model_traces)
     ctx.notes["seeded_design_defects_caught_by"] = caught
+    # ---- for ALL T, dt, dt_min: LoopAdaptive.tla (which SolverLoop refines, PROPERTY AdaptiveRefinement) is proved by
+    # TLAPS - invariant, MinStep, strict advance / strict shrink, lexicographic termination measure; without the clamp to
+    # dt_min an obligation must fail
+    if not quick:
+        from harness import tlaps
+        pr = tlaps.run("LoopAdaptive", timeout=600)
+        ctx.notes["tlaps_loop_adaptive"] = pr.summary()
+        if not pr.ok:
+            raise loop.tlc.TLCMachineryError(f"LoopAdaptive: {pr.failed}/{pr.obligations} obligations failed\n{pr.output[-1500:]}")
+        src = open(os.path.join(loop.tlc.SPEC_DIR, "LoopAdaptive.tla")).read()
+        assert "s' = Max(p, Mn)" in src
+        prm = tlaps.run("LoopAdaptive", extra_modules={"LoopAdaptive": src.replace("s' = Max(p, Mn)", "s' = p")}, timeout=600)
+        ctx.notes["tlaps_loop_adaptive_without_clamp"] = prm.summary()
+        if prm.failed == 0:
+            raise loop.tlc.TLCMachineryError("LoopAdaptive without the clamp to dt_min was proved: the proof is vacuous")
+
     # ---- traces harvested from the repository's own test-suite (DESIGN 4.2 (ii)): the adaptive solves of
     # tests/test_sdeint.py run by the real controller, validated event by event by TraceLoop
     from harness import harvest_run
